@@ -243,12 +243,14 @@ var targets = []*target{
 		}},
 	{ID: "fanspeedpb.ModelServer", Pkg: "fanspeedpb", File: "model_server.go", Type: "ModelServer",
 		Service: "smartcore.traits.FanSpeedApi", Update: "UpdateFanSpeed",
-		Note: "default presets; the model has a float tolerance of 0.01 on Pull, values differ by >= 15",
+		Note: "default presets; the model has a float tolerance of 0.01 on Pull, values differ by >= 15 (two are outside 0-100); Nudge steps move the percentage by 0.004",
 		build: func(safe bool, names []string) *stack {
 			var srv traits.FanSpeedApiServer = fanspeedpb.NewModelServer(fanspeedpb.NewModel())
 			return &stack{
+				// the last two are outside the documented 0-100 range: well-formed, and whether the server accepts them
+				// is its business rule - either way the answer must be consistent
 				values: msgs(&traits.FanSpeed{Preset: "high"}, &traits.FanSpeed{Percentage: 33}, &traits.FanSpeed{Preset: "low", Direction: traits.FanSpeed_BACKWARD},
-					&traits.FanSpeed{Percentage: 100}),
+					&traits.FanSpeed{Percentage: 100}, &traits.FanSpeed{Percentage: 140}, &traits.FanSpeed{Percentage: -20}),
 				bad: msgs(&traits.FanSpeed{Preset: "no-such-preset"}),
 				conn: assemble(safe, names, srv, fanspeedpb.WrapApi, func() (adder, traits.FanSpeedApiServer) { r := fanspeedpb.NewApiRouter(); return r, r },
 					func(cc grpc.ClientConnInterface) any { return traits.NewFanSpeedApiClient(cc) })}
